@@ -78,7 +78,7 @@ class Reference:
     def plan_event(self):
         return {"ev": "Plan", "schema": self.inp.name, "ops": self.ops, "nin": self.nin}
 
-    def positions(self, calls=("mkdir", "open", "write", "close")):
+    def positions(self, calls=("mkdir", "open", "write", "close", "rename", "unlink")):
         """1-based fault positions k whose reference call is one of `calls`."""
         return [i + 1 for i, op in enumerate(self.ops) if op["call"] in calls]
 
@@ -182,7 +182,7 @@ def disk_event(tree, ref_files, stale_files=None):
 
 def plan_from_events(events):
     """Transliterate the output-class calls of a fault-free run into plan ops
-    [{"call","path","dir","len"}] and count the input files opened."""
+    [{"call","path","dir","len","src"}] and count the input files opened."""
     ops = []
     for e in events:
         if e.get("ev") != "sys" or e.get("cls") != "out":
@@ -191,7 +191,8 @@ def plan_from_events(events):
         d = ""
         if e["call"] in ("mkdir", "open"):
             d = "" if path == "." else (os.path.dirname(path) or ".")
-        ops.append({"call": e["call"], "path": path, "dir": d, "len": e["len"] if e["call"] == "write" else 0})
+        ops.append({"call": e["call"], "path": path, "dir": d, "len": e["len"] if e["call"] == "write" else 0,
+                    "src": e.get("src", "") if e["call"] == "rename" else ""})
     nin = sum(1 for e in events if e.get("ev") == "sys" and e.get("cls") == "in" and e["call"] == "open" and e["res"] >= 0)
     return ops, nin
 
